@@ -49,9 +49,12 @@ func (r *run) setup(over <-chan struct{}) (feed chan int, feedDone chan struct{}
 		r.ctxEndRet.Store(kit.Stamp())
 	case r.p.Ctx == ctxDeadline || r.p.Ctx == ctxViaTimer:
 		d := time.Duration(20+r.c.R.Intn(600)) * time.Microsecond
+		if r.p.Park != nil {
+			d = time.Duration(200+r.c.R.Intn(3000)) * time.Microsecond // the deadline passes while the call is running
+		}
 		ctx, cancel := context.WithTimeout(context.Background(), d)
 		r.ctx, cleanup = ctx, cancel
-	case r.p.Ctx == ctxIdle || r.p.Ctx == ctxPre || r.p.Ctx == ctxAt || r.p.Ctx == ctxAtAsync || needCancel:
+	case r.p.Ctx == ctxIdle || r.p.Ctx == ctxPre || r.p.Ctx == ctxAt || r.p.Ctx == ctxAtAsync || r.p.Ctx == ctxPark || needCancel:
 		ctx, cancel := context.WithCancel(context.Background())
 		r.ctx, r.endCtxFn, cleanup = ctx, cancel, cancel
 		if r.p.Ctx == ctxPre {
